@@ -9,6 +9,8 @@ declare -A CHECKS=(
  [C17a]="C17" [C17b]="C17 C15" [C18a]="C18" [C18b]="C18"
  [C01c]="C01" [C01d]="C01 C15" [C02c]="C02" [C02d]="C02 C15" [C03c]="C03" [C03d]="C03" [C04c]="C15 C04" [C04d]="C04"
  [C09c]="C09" [C09d]="C09" [C10c]="C10 C04" [C10d]="C10" [C11c]="C11 C15" [C11d]="C11 C15" [C12c]="C12 C02" [C12d]="C12 C10"
+ [C05c]="C05" [C05d]="C05 C10" [C06c]="C06 C15" [C06d]="C06 C15" [C07c]="C07" [C07d]="C07" [C08c]="C08" [C08d]="C08"
+ [C17c]="C17 C15" [C17d]="C17" [C18c]="C18" [C18d]="C18"
  [C13c]="C13" [C13d]="C13" [C14c]="C14" [C14d]="C14 C07" [C15c]="C15" [C15d]="C15" [C16c]="C16" [C16d]="C16"
 )
 for s in "$@"; do
